@@ -256,6 +256,36 @@ def run_style(chk, tier, seed, declared):
             chk.violation("[%s, %s]: inferred type expected %s, observed %s" % (inh(c["req"]), inh(c["sup"]), want, got),
                           {"kind": "infer", "source": j["src"], "expected": want, "observed": got, "a": c["req"], "b": c["sup"]},
                           finding_key="infer:%s|%s" % (ann(c["req"]), ann(c["sup"])))
+    # inference through a generic parameter bound by several arguments: the binding is the common type
+    # (in either order, directly and inside a container), or the call is rejected
+    GEN = ("fn pick<T>(a: T, b: T)->T { a }\nfn pickseq<T>(a: Sequence<T>, b: Sequence<T>)->Sequence<T> { a }\n"
+           "fn pick3<T>(a: T, b: T, c: T)->Optional<T> { none() }\n")
+    gj, gmeta = [], []
+    for k, c in enumerate(inf):
+        A, B = inh(c["req"]), inh(c["sup"])
+        for form, call, wrap in (("pick", "pick(%s, %s)" % (A, B), "%s"), ("pickseq", "pickseq([%s], [%s])" % (A, B), "Sequence<%s>"),
+                                 ("pick3", "pick3(%s, %s, %s)" % (A, B, A), "Optional<%s>")):
+            if tier == "quick" and form != ("pick", "pickseq", "pick3")[(k + seed) % 3]:
+                continue
+            gj.append({"id": "g%d" % len(gj), "src": mk(GEN + "let v = %s;\n" % call), "compile_only": True, "types": ["v"]})
+            gmeta.append((c, form, call, wrap))
+    gres = vf.run_jobs(gj, "c04-generic")
+    for j, (c, form, call, wrap) in zip(gj, gmeta):
+        o = gres[j["id"]]
+        oc = vf.job_outcome(o)
+        chk.count(1)
+        chk.nontrivial(["generic", form, c["req"], c["sup"]])
+        if c["common"]["k"] == "none":
+            good, want, got = oc == "compile_err", "rejected (no common type)", oc
+        else:
+            want = wrap % ann(c["common"])
+            got = o.get("types", {}).get("v") if oc == "ok" else oc + ": " + str(o.get("compile", {}).get("msg", ""))[:120]
+            good = got == want
+        if not good:
+            chk.violation("%s: static type expected %s, observed %s" % (call, want, got),
+                          {"kind": "infer", "source": j["src"], "expected": want, "observed": got, "a": c["req"], "b": c["sup"]},
+                          finding_key="generic:%s:%s|%s" % (form, ann(c["req"]), ann(c["sup"])))
+    chk.part("generic_binding", calls=len(gj))
     chk.part("pairs", pairs=len(cases), positions=positions, expected_accept=len(yes), expected_reject=len(no), inference=len(inf))
     c = cases[len(cases) // 2]
     chk.sample({"required": ann(c["req"]), "supplied": ann(c["sup"]), "inhabitant": inh(c["sup"]), "assignable": c["assign"],
